@@ -73,7 +73,10 @@ Converged(cfg, c, vm, tap) == LET k == Ctl(cfg, c) IN IF k.kind = "disc" THEN Di
 \*     pass (pend # 0: a control_step must follow the failed is_converged) | "run" evaluate_net | "mustraise" max_iter hit
 \*     | "final" finalize_control pass | "ret" return | "end"
 S0(cfg) == [ph |-> "init", li |-> 1, vis |-> {}, any |-> FALSE, rc |-> 0, pend |-> 0, tap |-> cfg.tap0, applied |-> cfg.applied0,
-            dirty |-> FALSE, out |-> "", err |-> "", runs |-> 0, steps |-> 0]
+            dirty |-> FALSE, out |-> "", err |-> "", div |-> "", runs |-> 0, steps |-> 0]
+\* err: the first PROPERTY clause that rejected an event (the fold stops there); div: the first CONFORMANCE divergence (a
+\* decision that differs from the transcribed decision functions) - recorded, the fold goes on with the logged values, so
+\* that the property clauses are still decided on the rest of the trace and on the final state
 
 \* silent bookkeeping between two events (run_control.py:191-214)
 RECURSIVE Norm(_, _)
@@ -91,6 +94,7 @@ Norm(cfg, s) ==
   ELSE s
 
 Fail(s, name) == [s EXCEPT !.err = name]
+Div(s, name) == IF s.div = "" THEN [s EXCEPT !.div = name] ELSE s
 IsTap(k) == k.kind \in {"disc", "cont"}
 
 \* is_converged(c) returned e.r having read voltage e.vm and tap e.t0
@@ -98,10 +102,10 @@ OnConv(cfg, s, e) ==
   LET k == Ctl(cfg, e.c)
       s1 == [s EXCEPT !.vis = s.vis \cup {e.c}, !.pend = IF e.r THEN 0 ELSE e.c, !.any = s.any \/ ~e.r,
                       !.dirty = s.dirty \/ (k.kind = "char" /\ e.t1 # 0)]          \* CharacteristicControl writes while checking
-  IN IF IsTap(k) /\ ~k.oos /\ e.t0 # s.tap[e.c] THEN Fail(s, "DIV_TapTracking")
-     ELSE IF IsTap(k) /\ ~Ambiguous(cfg, k, e.vm) /\ e.r # Converged(cfg, e.c, e.vm, e.t0) THEN Fail(s, "DIV_ConvDecision")
-     ELSE IF k.kind = "const" /\ e.r # s.applied[e.c] THEN Fail(s, "DIV_ConvDecision")
-     ELSE IF k.kind = "char" /\ e.r /\ ~s.applied[e.c] THEN Fail(s, "DIV_ConvDecision")
+  IN IF IsTap(k) /\ ~k.oos /\ e.t0 # s.tap[e.c] THEN Div([s1 EXCEPT !.tap = [s.tap EXCEPT ![e.c] = e.t0]], "DIV_TapTracking")
+     ELSE IF IsTap(k) /\ ~Ambiguous(cfg, k, e.vm) /\ e.r # Converged(cfg, e.c, e.vm, e.t0) THEN Div(s1, "DIV_ConvDecision")
+     ELSE IF k.kind = "const" /\ e.r # s.applied[e.c] THEN Div(s1, "DIV_ConvDecision")
+     ELSE IF k.kind = "char" /\ e.r /\ ~s.applied[e.c] THEN Div(s1, "DIV_ConvDecision")
      ELSE s1
 
 \* control_step(c) moved the tap from e.t0 to e.t1 having read voltage e.vm
@@ -111,11 +115,11 @@ OnStep(cfg, s, e) ==
                       !.tap = [s.tap EXCEPT ![e.c] = IF IsTap(k) THEN e.t1 ELSE s.tap[e.c]],
                       !.applied = [s.applied EXCEPT ![e.c] = IF IsTap(k) THEN s.applied[e.c] ELSE TRUE],
                       !.dirty = s.dirty \/ (IsTap(k) /\ e.t1 # e.t0)]
-  IN IF ~IsTap(k) \/ k.oos THEN (IF IsTap(k) /\ e.t1 # e.t0 THEN Fail(s, "DIV_StepDecision") ELSE s1)
-     ELSE IF e.t0 # s.tap[e.c] THEN Fail(s, "DIV_TapTracking")
+  IN IF ~IsTap(k) \/ k.oos THEN (IF IsTap(k) /\ e.t1 # e.t0 THEN Div(s1, "DIV_StepDecision") ELSE s1)
      ELSE IF (k.kind = "disc" \/ k.bounds) /\ (e.t1 < k.tmin \/ e.t1 > k.tmax) THEN Fail(s, "C13_TapInRange")
-     ELSE IF k.kind = "disc" /\ ~Ambiguous(cfg, k, e.vm) /\ e.t1 # e.t0 + 1000 * DiscInc(k, e.vm, e.t0) THEN Fail(s, "DIV_StepDecision")
-     ELSE IF k.kind = "cont" /\ e.vm # NaNv /\ AbsI(e.t1 - ContTarget(k, e.vm, e.t0)) > 2 THEN Fail(s, "DIV_StepDecision")
+     ELSE IF e.t0 # s.tap[e.c] THEN Div(s1, "DIV_TapTracking")
+     ELSE IF k.kind = "disc" /\ ~Ambiguous(cfg, k, e.vm) /\ e.t1 # e.t0 + 1000 * DiscInc(k, e.vm, e.t0) THEN Div(s1, "DIV_StepDecision")
+     ELSE IF k.kind = "cont" /\ e.vm # NaNv /\ AbsI(e.t1 - ContTarget(k, e.vm, e.t0)) > 2 THEN Div(s1, "DIV_StepDecision")
      ELSE s1
 
 Step(cfg, s0, e) ==
@@ -125,9 +129,9 @@ Step(cfg, s0, e) ==
   ELSE IF s.ph = "end" THEN Fail(s, "C13_Order")
   ELSE IF e.ev = "raise" THEN
          IF s.ph = "mustraise" THEN (IF e.exc = "ControllerNotConverged" THEN [s EXCEPT !.ph = "end", !.out = e.exc]
-                                     ELSE Fail(s, "DIV_UnexpectedRaise"))
+                                     ELSE Div([s EXCEPT !.ph = "end", !.out = e.exc], "DIV_UnexpectedRaise"))
          ELSE IF s.ph \in {"run", "initrun"} /\ e.exc # "ControllerNotConverged" THEN [s EXCEPT !.ph = "end", !.out = e.exc]
-         ELSE Fail(s, "DIV_UnexpectedRaise")
+         ELSE Div([s EXCEPT !.ph = "end", !.out = e.exc], "DIV_UnexpectedRaise")       \* a not-converged error at an unexpected place
   ELSE IF s.ph = "mustraise" THEN Fail(s, "C13_TerminatesOrRaises")           \* went on after max_iter calculations
   ELSE IF s.ph = "init" THEN
          IF e.ev = "init" /\ e.c \in AllCands(cfg, s.vis, 1) THEN Norm(cfg, [s EXCEPT !.vis = s.vis \cup {e.c}]) ELSE Fail(s, "C13_Order")
